@@ -82,3 +82,15 @@ NOT_APPLICABLE = {
     "C44": "path execution runs over account-loader-backed revertible markets and HashSet<Pubkey> (RandomState) duplicate detection, "
            "reachable only through Anchor contexts and CPIs; per-hop arithmetic is decided under C04/C05.",
 }
+
+
+# Additional claims live in lib/claims/*.py, one file per work area; each defines CLAIMED and/or
+# NOT_APPLICABLE dicts with the same shape as above (a claim there overrides a not-applicable here).
+import glob as _glob, os as _os
+for _f in sorted(_glob.glob(_os.path.join(_os.path.dirname(_os.path.abspath(__file__)), "claims", "*.py"))):
+    _ns = {"BOUNDED": BOUNDED}
+    exec(compile(open(_f).read(), _f, "exec"), _ns)
+    CLAIMED.update(_ns.get("CLAIMED", {}))
+    NOT_APPLICABLE.update(_ns.get("NOT_APPLICABLE", {}))
+for _p in CLAIMED:
+    NOT_APPLICABLE.pop(_p, None)
